@@ -79,6 +79,12 @@ fn random_packet(r: &mut Report, rng: &mut Rng) {
 }
 
 fn built_packet(r: &mut Report, rng: &mut Rng) {
+    built_packet_with(r, rng, None)
+}
+
+/// `vel` fixes the first two predicted velocity samples (ns0, ew0, ns1, ew1): small integers in exact double-angle
+/// relations put the computed track a rounding error away from 0 / 360
+fn built_packet_with(r: &mut Report, rng: &mut Rng, vel: Option<[i8; 4]>) {
     // reference anywhere on the globe, truth inside the decodable window (numeric, no wrap across +-180)
     let rlat = if rng.chance(0.1) { *rng.pick(&[0.0, 89.9, -89.9, 45.0]) } else { rng.uni(-90.0, 90.0) };
     let rlon = if rng.chance(0.1) { *rng.pick(&[0.0, 179.9, -179.9, 5.1]) } else { rng.uni(-180.0, 180.0) };
@@ -110,6 +116,14 @@ fn built_packet(r: &mut Report, rng: &mut Rng) {
         w0_spare: rng.below(16) as u32,
         w2_spare: rng.below(1024) as u32,
     };
+    let mut f = f;
+    if let Some(v) = vel {
+        f.ns[0] = v[0];
+        f.ew[0] = v[1];
+        f.ns[1] = v[2];
+        f.ew[1] = v[3];
+        r.class("built:small-integer-velocity-sweep");
+    }
     let ts = match rng.below(8) {
         0 => 0,
         1 => u32::MAX,
@@ -205,7 +219,18 @@ pub fn run(a: &Args, r: &mut Report) {
             built_packet(r, &mut rng);
         }
     }
+    // every combination of small integer velocity samples (exhaustive in the stated box), split across the shards
+    let rr: i32 = if a.thorough() { 12 } else { 6 };
+    let side = (2 * rr + 1) as i64;
+    let total = side.pow(4);
+    let mut k = a.shard as i64;
+    while k < total && !a.asan {
+        let d = |j: i64| ((k / side.pow(j as u32)) % side) as i32 - rr;
+        built_packet_with(r, &mut rng, Some([d(0) as i8, d(1) as i8, d(2) as i8, d(3) as i8]));
+        k += a.nshards as i64;
+    }
     if !a.asan {
-        r.extra.insert("mandatory".into(), json!(["built:ok(key table A)", "built:ok(key table B)", "random:record(key table A)", "random:record(key table B)", "random:error(short)"]));
+        r.extra.insert("velocity_sweep_box".into(), json!([format!("[-{rr}, {rr}]^4")]));
+        r.extra.insert("mandatory".into(), json!(["built:small-integer-velocity-sweep", "built:ok(key table A)", "built:ok(key table B)", "random:record(key table A)", "random:record(key table B)", "random:error(short)"]));
     }
 }
